@@ -351,6 +351,92 @@ def run_execd(base, idx, r, sh):
     sh.nontrivial.add(("execd", len(pairs), frozenset(classes_in(list(pairs.values())))))
 
 
+def run_layer_api(lmon, base, idx, r, sh):
+    """<layer>.toml as written by the layer API itself (two requests with different flags, metadata in between)."""
+    root = os.path.join(base, "lapi-%d" % idx)
+    os.makedirs(os.path.join(root, "layers"))
+    try:
+        lmon.call({"op": "init", "layers_dir": os.path.join(root, "layers"), "app_dir": root, "bp_dir": root})
+        f1 = {"build": r.random() < 0.5, "launch": r.random() < 0.5}
+        f2 = {"build": r.random() < 0.5, "launch": r.random() < 0.5}
+        md = rnd_plain_table(r)
+        req = lambda fl: dict(op="cached", name="L", mtype="generic", restored={"action": "keep", "cause": "c"}, invalid={"action": "delete", "cause": "i"}, **fl)
+        steps = [req(f1), {"op": "write_metadata", "name": "L", "metadata": tomlw.tagged(md)}]
+        second = r.choice(["cached", "uncached", "none"])
+        if second == "cached":
+            steps.append(req(f2))
+        elif second == "uncached":
+            steps.append(dict(op="uncached", name="L", **f2))
+        for st in steps:
+            rep = lmon.call(st)
+            if "err" in rep:
+                sh.violation("layer-api:error", "layer request failed: %s" % rep["detail"][:200], {"kind": "layer-api", "steps": steps})
+                return
+        sh.evaluations += 1
+        raw = open(os.path.join(root, "layers", "L.toml"), "rb").read()
+        case = {"kind": "layer-api", "steps": steps}
+        try:
+            doc = tomllib.loads(raw.decode())
+        except Exception as e:  # noqa: BLE001
+            sh.violation("layer-api:invalid-toml", "<layer>.toml written by the layer API is not valid TOML: %s\n%s" % (e, raw[:300]), case)
+            return
+        want_t = dict(f2 if second != "none" else f1, cache=second != "uncached")
+        want_md = {} if second == "uncached" else tomlw.to_py(md)
+        only_keys(doc, ["types", "metadata"], "<layer>.toml")
+        t = doc.get("types", {})
+        got_t = {k: t.get(k, False) for k in ("build", "launch", "cache")}
+        if got_t != want_t or set(t) - set(want_t) or not tomlw.same(doc.get("metadata", {}), want_md):
+            sh.violation("layer-api:content", "<layer>.toml reads types %r metadata %r, the requests constructed types %r metadata %r\n%s"
+                         % (got_t, doc.get("metadata"), want_t, want_md, raw[:300].decode(errors="replace")), case)
+            return
+        sh.nontrivial.add(("layer-api", second, tuple(sorted(f1.items())) != tuple(sorted(f2.items())), frozenset(classes_in(md))))
+    except Bad as e:
+        sh.violation("layer-api:spec-shape", "<layer>.toml does not have the spec's shape: %s" % e, {"kind": "layer-api"})
+    finally:
+        vp.rmtree(root)
+
+
+def rnd_plain_table(r):
+    """metadata without datetimes/floats (kept simple: it also travels through JSON)"""
+    return {k: r.choice([r.choice(S), r.randrange(-5, 5), r.random() < 0.5, [r.choice(S)], {"n": r.choice(S)}]) for k in r.sample(tomlw.RND_KEYS, r.randint(0, 5))}
+
+
+def run_runtime_store(base, idx, r, sh):
+    """store.toml / launch.toml as written by the real runtime at the end of build, also over longer stale files."""
+    import phase
+    lay = phase.Layout(os.path.join(base, "rt-%d" % idx))
+    try:
+        lay.create()
+        with open(os.path.join(lay.bp, "buildpack.toml"), "w") as f:
+            f.write(phase.BP_TOML_OK)
+        with open(lay.plan, "w") as f:
+            f.write("")
+        store = rnd_plain_table(r) if r.random() < 0.6 else {}
+        if r.random() < 0.6:
+            with open(os.path.join(lay.layers, "store.toml"), "w") as f:
+                f.write("[metadata]\n" + "".join('old_%d = "%s"\n' % (i, "x" * 30) for i in range(40)))
+        script = {"build": {"result": "ok", "launch": None, "store": tomlw.tagged(store), "build_sboms": [], "launch_sboms": []}}
+        st, marker, err = lay.run("build", lay.build_args(), lay.env(), script)
+        sh.evaluations += 1
+        case = {"kind": "runtime-store", "store": store}
+        p = os.path.join(lay.layers, "store.toml")
+        if st != 0 or not os.path.exists(p):
+            sh.violation("runtime-store:missing", "build returned a store (%r) and exited %d, but store.toml %s" % (store, st, "is missing" if st == 0 else "was not written"), case)
+            return
+        raw = open(p, "rb").read()
+        try:
+            doc = tomllib.loads(raw.decode())
+        except Exception as e:  # noqa: BLE001
+            sh.violation("runtime-store:invalid-toml", "store.toml is not valid TOML: %s\n%s" % (e, raw[:200]), case)
+            return
+        if set(doc) - {"metadata"} or not tomlw.same(doc.get("metadata", {}), tomlw.to_py(store)):
+            sh.violation("runtime-store:content", "store.toml reads %r, the build returned %r" % (doc, store), case)
+            return
+        sh.nontrivial.add(("runtime-store", len(store), frozenset(classes_in(store))))
+    finally:
+        vp.rmtree(lay.root)
+
+
 GENS = {"launch": gen_launch, "build_plan": gen_plan, "layer_toml": gen_layer, "store": gen_store, "package": gen_package}
 
 
@@ -358,6 +444,7 @@ def shard_run(arg):
     seed, idxs, work = arg
     sh = vp.Shard()
     mon = vp.Mon("emit")
+    lmon = vp.Mon("layers")
     base = os.path.join(work, "w%d" % os.getpid())
     os.makedirs(base, exist_ok=True)
     kinds = ["launch", "launch", "build_plan", "build_plan", "layer_toml", "store", "package", "execd"]
@@ -365,6 +452,12 @@ def shard_run(arg):
         for idx in idxs:
             r = vp.rng(seed, "c07", idx)
             kind = kinds[idx % len(kinds)]
+            if idx % 16 == 7:
+                run_layer_api(lmon, base, idx, r, sh)
+                continue
+            if idx % 80 == 15:
+                run_runtime_store(base, idx, r, sh)
+                continue
             if kind == "execd":
                 if idx % 5 == 0:
                     run_execd(base, idx, r, sh)
@@ -373,6 +466,7 @@ def shard_run(arg):
             run_doc(mon, base, idx, kind, req, intent, sh)
     finally:
         mon.close()
+        lmon.close()
         vp.rmtree(base)
     return sh.dict()
 
@@ -392,7 +486,10 @@ def run(tier, seed, work):
 def replay(case, work):
     res = vp.Result("C07", "quick", 0, "exploration")
     sh = vp.Shard()
-    if case["kind"] == "execd":
+    if case["kind"] in ("layer-api", "runtime-store"):
+        sh.inconclusive.append("replay of %s cases re-runs the check at the recorded seed instead (VERIF_SEED=<seed> ./check C07)" % case["kind"])
+        sh.evaluations += 1
+    elif case["kind"] == "execd":
         class R:  # replays the recorded pairs
             pass
         pairs = case["pairs"]
